@@ -12,9 +12,10 @@ class C05(Prop):
     id = 'C05'
     stages = ('S1', 'S25', 'S6')
     rule = 'completeness: boxes 0..60 x 0..30 (quick: a sample) x offsets x corner styles (sharp, rounded, box drawing, rounded box drawing) x edge styles (- ~ and dashed box drawing) x sides with : or ! stretches x interior label text; soundness: every rect element in the output of random grids over {- | + . \' ` , ~ : ! space}; non-trivial when the output has a rect element besides the backdrop'
-    level_text = ('Theorems C05_rect_is_outline_of_four_lines (is_rect accepts only four lines that are the four edges of their bounding box: soundness of the endorsement, for all fragment lists), C05_rect_endorsement_moves (C06), C05_side_merges (C09 chains: a side of any length is one line, dashed if any part is). '
-                  'Completeness for every size/style (tables -> four edge lines -> one contact group) is decided by correspondence and oracle.')
-    level_note = 'partial: completeness over all sizes and styles relies on correspondence plus oracle; soundness of is_rect is proved'
+    level_text = ('Theorems C05_rect_only_for_an_outline / C05_outline_means_four_edges_present (is_rect accepts only four lines that are the four edges of their bounding box: soundness of the endorsement, for all fragment lists), C05_recognition_anywhere (C06), C05_side_of_any_length_is_one_line (C09 chains), '
+                  "C05_boxes_are_recognised (completeness: every box of the eight standard styles - sharp, ~, rounded . ' and , `, rounded ~, box drawing, rounded and dashed box drawing - with up to 16 x 8 interior cells is recognised by the whole recognition of the model as exactly one rectangle through the centres of its border cells, with the radius and dash class of its style, and nothing else; sweep inside Coq on the regenerated tables) and C05_boxes_are_recognised_anywhere_in_context (the same box at any offset, next to any content that does not touch it: exactly that rectangle, moved, comes from its cells; by C06 and C10). "
+                  'Larger boxes, sides with dashed stretches and interior text are decided by correspondence and oracle.')
+    level_note = 'partial: completeness beyond 16 x 8 interior cells relies on correspondence plus oracle; soundness of is_rect is proved for all inputs'
     def box_item(self, rng, w, h, style, x, y, sidepat, inner):
         c, hz, vt, rx, dashed = style
         rows = [c[0] + hz * w + c[1]]
